@@ -86,11 +86,19 @@ func (w *dvWorld) exec(r failer, f []string) string {
 			w.resets = map[int]func(){}
 		}
 		w.resets[atoi(f[1])] = w.in[atoi(f[1])].ToggleValue(atoi(f[2]))
+		if got := w.in[atoi(f[1])].Get(); got != atoi(f[2]) {
+			r.Fail("derived-variable", fmt.Sprintf("ToggleValue(%d) on input %d left %d", atoi(f[2]), atoi(f[1]), got),
+				map[string]string{"construct": "Variable", "trigger": "toggle-value", "mode": "sequential"})
+		}
 	case "reset":
 		if w.d == nil || w.resets[atoi(f[1])] == nil {
 			return "bad-op"
 		}
 		w.resets[atoi(f[1])]()
+		if got := w.in[atoi(f[1])].Get(); got != 0 {
+			r.Fail("derived-variable", fmt.Sprintf("the reset function of ToggleValue on input %d left %d, not the zero value", atoi(f[1]), got),
+				map[string]string{"construct": "Variable", "trigger": "toggle-reset", "mode": "sequential"})
+		}
 	case "unsub":
 		if w.d == nil {
 			return "bad-op"
